@@ -354,7 +354,8 @@ class ZemaxFileReader:
         # Generate a Material object from the material name & manufacturer
         try:
             # Try to create a Material object from the material name
-            self._current_surf_data['material'] = Material(material)
+            self._current_surf_data['material'] = \
+                self._exact_material(material)
         except ValueError:
 
             # If the material name is not recognized, try to create a Material
@@ -363,7 +364,8 @@ class ZemaxFileReader:
                 for manufacturer in self.data['glass_catalogs']:
                     try:
                         self._current_surf_data['material'] = \
-                            Material(material, manufacturer.lower())
+                            self._exact_material(material,
+                                                 manufacturer.lower())
                         break
                     except ValueError:
                         continue
@@ -373,6 +375,19 @@ class ZemaxFileReader:
             n = self._current_surf_data['index']
             v = self._current_surf_data['abbe']
             self._current_surf_data['material'] = AbbeMaterial(n, v)
+
+    @staticmethod
+    def _exact_material(name, reference=None):
+        """Catalogue material whose name is the given name (the catalogue
+        search also returns the nearest name that merely contains it)."""
+        candidate = Material(name, reference)
+        found = candidate.material_data
+        stem = os.path.splitext(os.path.basename(found['filename']))[0]
+        names = {str(found['category_name']).lower(),
+                 str(found['name']).lower(), stem.lower()}
+        if name.lower() not in names:
+            raise ValueError(f'No exact match for material {name}')
+        return candidate
 
     def _read_stop(self, data):
         """
